@@ -12,7 +12,8 @@ namespace HC.Crash
 open HC HC.Codec HC.Flat HC.Tree HC.RefTree HC.RefProof HC.Offsets HC.TreeStore HC.LogSpec HC.Core HC.Oplog HC.LiveRefine
   HC.BitfieldPages HC.OplogBytes HC.FormatLimits HC.Touch HC.Persist
 
-structure Durable (C : Crypto) (d : Disk) (hf : Header) (a0 : Abs) (es : List Entry) (a : Abs) : Prop where
+/-- what a reopen needs (`durable_open`) -/
+structure Durable0 (C : Crypto) (d : Disk) (hf : Header) (a0 : Abs) (es : List Entry) (a : Abs) : Prop where
   oplog : OpImage d.oplog hf es
   hfLen : hf.tree.length = a0.blocks.size
   hfSig : hf.tree.signature = [] ∨ hf.tree.signature.length = 64
@@ -20,7 +21,6 @@ structure Durable (C : Crypto) (d : Disk) (hf : Header) (a0 : Abs) (es : List En
   hfShape : HdrShape hf
   oks : ∀ e ∈ es, EntryOK e
   fileNodes : NodesOK C a0.blocks {} d.tree
-  fileSize : d.bitfield.size % Spec.pageBytes = 0
   stable : ∀ i, (∀ e ∈ es, ¬ Touches e i) → (Bitfield.ofFile d.bitfield).get i = a0.held i
   kept : ∀ i, a0.held i = true → (Bitfield.ofFile d.bitfield).get i = true ∨ ∃ e ∈ es, Clears e i
   low : ∀ i, i < a0.blocks.size → a0.held i = false → (Bitfield.ofFile d.bitfield).get i = false
@@ -32,9 +32,15 @@ structure Durable (C : Crypto) (d : Disk) (hf : Header) (a0 : Abs) (es : List En
   data : ∀ i, a.held i = true → ∀ k, k < sz a.blocks i →
     psum a.blocks i + k < d.data.size ∧ d.data.byte (psum a.blocks i + k) = (a.blocks.getD i []).getD k 0
 
+/-- … and what carrying on after the reopen needs in addition (`recover_persist`): the bitfield store consists
+    of whole pages (a torn page write can break this until the page is written again) -/
+structure Durable (C : Crypto) (d : Disk) (hf : Header) (a0 : Abs) (es : List Entry) (a : Abs) : Prop
+    extends Durable0 C d hf a0 es a where
+  fileSize : d.bitfield.size % Spec.pageBytes = 0
+
 /-- **opening durable stores yields a core that represents the log** -/
 theorem durable_open (C : Crypto) (hC : HashWF C) (hTw : TreeWF C) (d : Disk) (hf : Header) (a0 : Abs) (es : List Entry) (a : Abs)
-    (h : Durable C d hf a0 es a) : ∃ c' j, Core.openCore C none d = .ok (c', j) ∧ Rep C c' (d.applyAll j) a := by
+    (h : Durable0 C d hf a0 es a) : ∃ c' j, Core.openCore C none d = .ok (c', j) ∧ Rep C c' (d.applyAll j) a := by
   obtain ⟨ost, ops, hlog, hops, _⟩ := opimage_open _ hf es h.oplog
   obtain ⟨sk, hsk⟩ := Option.isSome_iff_exists.mp h.hfSecret
   obtain ⟨c', ho, hr⟩ := Reopen.reopen_refines C hC hTw d ost hf es a0 a sk ops hops hlog h.hfLen h.hfSig hsk h.hfShape h.oks h.fileNodes h.stable h.kept
@@ -72,7 +78,7 @@ theorem persist_durable (C : Crypto) (c : Core) (d : Disk) (hf : Header) (a0 : A
     obtain ⟨_, _, _, _, _, _, _, _, _, _, hok⟩ := hp.oplog
     exact hok
   exact {
-    oplog := Or.inl ⟨c.oplog, hp.oplog⟩
+    oplog := opimage_of_inv c.oplog _ hf es hp.oplog
     hfLen := hp.hfLen
     hfSig := hp.hfSig
     hfSecret := by rw [hp.hfSecret]; exact hrep.writer
@@ -460,7 +466,9 @@ theorem append_mid (C : Crypto) (hC : HashWF C) (hS : SignWF C) (hTw : TreeWF C)
     (es : List Entry) (hrep : Rep C c d a) (hp : Persist C c d hf a0 es a) (batch : List Bytes) (hne : batch ≠ [])
     (hv : Valid a (.append batch)) (hl : Limits a (.append batch)) :
     ∃ (c1 : Core) (entry : Entry) (ow : SOp),
-      (c.appendBatch C batch).journal = [SOp.write .data (totalBytes a.blocks) batch.flatten, ow] ++ c1.maybeFlush.2
+      ow = SOp.write .oplog (Spec.entriesOffset + c.oplog.entriesByteLength) (frame (encEntry entry) c.oplog.currentBit false)
+      ∧ EntryOK entry
+      ∧ (c.appendBatch C batch).journal = [SOp.write .data (totalBytes a.blocks) batch.flatten, ow] ++ c1.maybeFlush.2
       ∧ Rep C c1 (d.applyAll [SOp.write .data (totalBytes a.blocks) batch.flatten, ow]) (a.step (.append batch)).1
       ∧ Persist C c1 (d.applyAll [SOp.write .data (totalBytes a.blocks) batch.flatten, ow]) hf a0 (es ++ [entry]) (a.step (.append batch)).1 := by
   obtain ⟨c1, j01, entry, _, hrep1, ht, hb, hbits, hentry, hlen, hsig, hsec, hsec2, hop, hdop, hfork,
@@ -480,16 +488,19 @@ theorem append_mid (C : Crypto) (hC : HashWF C) (hS : SignWF C) (hTw : TreeWF C)
   have hp1 := persist_append_pre C c c1 d (d.applyAll j01) hf a0 a es batch entry hp hrep1 hne ht hb hbits
     (hentry hS) hlen (hsig hS) hsec hsec2 hop hdop (hentOK hS hl.1 hl.2 hp.forkU) hshape hfork
   rw [hj01] at hjournal hrep1 hp1
-  exact ⟨c1, entry, _, hjournal, hrep1, hp1⟩
+  exact ⟨c1, entry, _, rfl, hentOK hS hl.1 hl.2 hp.forkU, hjournal, hrep1, hp1⟩
 
 theorem clear_mid (C : Crypto) (c : Core) (d : Disk) (hf : Header) (a0 a : Abs)
     (es : List Entry) (hrep : Rep C c d a) (hp : Persist C c d hf a0 es a) (s e : Nat) (hse : s < e)
     (hv : Valid a (.clear s e)) (hl : Limits a (.clear s e)) :
     ∃ (c1 : Core) (ow : SOp) (j2 : List SOp),
-      (c.clear d s e).journal = ow :: j2 ++ c1.maybeFlush.2 ∧ ow.store = .oplog ∧ (∀ op ∈ j2, op.store = .data) ∧ j2.length ≤ 1
+      ow = SOp.write .oplog (Spec.entriesOffset + c.oplog.entriesByteLength) (frame (encEntry { bitfield := some ⟨true, s, e - s⟩ }) c.oplog.currentBit false)
+      ∧ EntryOK { bitfield := some ⟨true, s, e - s⟩ }
+      ∧ (c.clear d s e).journal = ow :: j2 ++ c1.maybeFlush.2 ∧ ow.store = .oplog ∧ (∀ op ∈ j2, op.store = .data) ∧ j2.length ≤ 1
+      ∧ (∀ op ∈ j2, ∀ st o b, op ≠ SOp.write st o b)
       ∧ Rep C c1 (d.applyAll (ow :: j2)) (a.step (.clear s e)).1
       ∧ Persist C c1 (d.applyAll (ow :: j2)) hf a0 (es ++ [{ bitfield := some ⟨true, s, e - s⟩ }]) (a.step (.clear s e)).1 := by
-  obtain ⟨c1, j01, _, hrep1, ht, hb, hbits, hhdr, hsec, hsec2, hop, hdop, hctree, ⟨cc, hcc⟩, hjournal, ⟨j2, hj01, hj2s, hj2l⟩⟩ :=
+  obtain ⟨c1, j01, _, hrep1, ht, hb, hbits, hhdr, hsec, hsec2, hop, hdop, hctree, ⟨cc, hcc⟩, hjournal, ⟨j2, hj01, hj2s, hj2l, hj2w⟩⟩ :=
     clear_shape C c d a hrep s e hse hv
   have hsn : s < a.blocks.size := hv hse
   have hU : U64 s ∧ U64 (e - s) := by
@@ -507,12 +518,40 @@ theorem clear_mid (C : Crypto) (c : Core) (d : Disk) (hf : Header) (a0 a : Abs)
   have hp1 := persist_clear_pre C c c1 d (d.applyAll j01) hf a0 a es s e hse hp hrep1 ht hb hbits hhdr hsec hsec2
     hop hdop (clearEntry_ok s (e - s) hU.1 hU.2) hshape hctree
   rw [hj01] at hjournal hrep1 hp1
-  exact ⟨c1, _, j2, hjournal, rfl, hj2s, hj2l, hrep1, hp1⟩
+  exact ⟨c1, _, j2, rfl, clearEntry_ok s (e - s) hU.1 hU.2, hjournal, rfl, hj2s, hj2l, hj2w, hrep1, hp1⟩
 
 /-- the stores after the first `k` operations of a journal `pre ++ fj`, for `k` beyond `pre` -/
 theorem take_beyond {α : Type} (pre fj : List α) (k : Nat) (h : pre.length ≤ k) :
     (pre ++ fj).take k = pre ++ fj.take (k - pre.length) := by
   rw [List.take_append, List.take_of_length_le h]
+
+/-- a clear whose entry is logged but whose data deletion has not happened: durable for the log after it -/
+theorem clear_logged (C : Crypto) (c c1 : Core) (d : Disk) (hf : Header) (a0 a : Abs) (es : List Entry) (s e : Nat) (hge : ¬ s ≥ e)
+    (ow : SOp) (j2 : List SOp) (hows : ow.store = .oplog) (hj2s : ∀ op ∈ j2, op.store = .data)
+    (hrep : Rep C c d a) (hrep1 : Rep C c1 (d.applyAll (ow :: j2)) (a.step (.clear s e)).1)
+    (hp1 : Persist C c1 (d.applyAll (ow :: j2)) hf a0 (es ++ [{ bitfield := some ⟨true, s, e - s⟩ }]) (a.step (.clear s e)).1) :
+    Durable C (d.apply ow) hf a0 (es ++ [{ bitfield := some ⟨true, s, e - s⟩ }]) (a.step (.clear s e)).1 := by
+  have hdur1 := persist_durable C c1 _ hf a0 _ _ hrep1 hp1
+  have hsplit : d.applyAll (ow :: j2) = (d.apply ow).applyAll j2 := rfl
+  have hoth : ∀ st, st ≠ Store.data → (d.applyAll (ow :: j2)).get st = (d.apply ow).get st := by
+    intro st hst
+    rw [hsplit]
+    exact Journal.applyAll_other _ _ st (fun op hop => by rw [hj2s op hop]; exact fun e => hst e.symm)
+  apply durable_congr C _ (d.apply ow) hf a0 _ _ hdur1
+  · have := hoth .tree (by decide); simpa [Disk.get] using this.symm
+  · have := hoth .bitfield (by decide); simpa [Disk.get] using this.symm
+  · have := hoth .oplog (by decide); simpa [Disk.get] using this.symm
+  · have hdd : (d.apply ow).data = d.data := by
+      have := Journal.apply_get d ow .data
+      rw [hows] at this
+      simpa [Disk.get] using this
+    rw [hdd]
+    have habs : (a.step (.clear s e)).1 = { a with held := fun i => a.held i && !(decide (s ≤ i) && decide (i < e)) } := by
+      simp only [Abs.step, hge, ite_false]
+    rw [habs]
+    intro i hi kk hkk
+    simp only [Bool.and_eq_true] at hi
+    exact hrep.data i hi.1 kk hkk
 
 /-- **C02 on the model, one call.**  Whatever prefix of the call's storage operations reached the stores,
     they are durable for the log before the call or for the log after it. -/
@@ -541,7 +580,7 @@ theorem crash_step (C : Crypto) (hC : HashWF C) (hS : SignWF C) (hTw : TreeWF C)
       have hj : (c.appendBatch C batch).journal = [] := by simp [Core.appendBatch, hseed, hemp]
       exact Or.inl ⟨hf, a0, es, by simpa [crashDisk, journalC, hj, Disk.applyAll] using hdur⟩
     · have hne : batch ≠ [] := by intro e; apply hemp; simp [e]
-      obtain ⟨c1, entry, ow, hjournal, hrep1, hp1⟩ := append_mid C hC hS hTw c d hf a0 a es hrep hp batch hne hv hl
+      obtain ⟨c1, entry, ow, _, _, hjournal, hrep1, hp1⟩ := append_mid C hC hS hTw c d hf a0 a es hrep hp batch hne hv hl
       show (∃ hf' a0' es', Durable C (d.applyAll ((c.appendBatch C batch).journal.take k)) hf' a0' es' a) ∨ _
       show _ ∨ (∃ hf' a0' es', Durable C (d.applyAll ((c.appendBatch C batch).journal.take k)) hf' a0' es' (a.step (.append batch)).1)
       rw [hjournal]
@@ -579,7 +618,7 @@ theorem crash_step (C : Crypto) (hC : HashWF C) (hS : SignWF C) (hTw : TreeWF C)
     by_cases hge : s ≥ e
     · have hj : (c.clear d s e).journal = [] := by simp [Core.clear, hge]
       exact Or.inl ⟨hf, a0, es, by simpa [crashDisk, journalC, hj, Disk.applyAll] using hdur⟩
-    · obtain ⟨c1, ow, j2, hjournal, hows, hj2s, hj2l, hrep1, hp1⟩ := clear_mid C c d hf a0 a es hrep hp s e (by omega) hv hl
+    · obtain ⟨c1, ow, j2, _, _, hjournal, hows, hj2s, hj2l, _, hrep1, hp1⟩ := clear_mid C c d hf a0 a es hrep hp s e (by omega) hv hl
       show (∃ hf' a0' es', Durable C (d.applyAll ((c.clear d s e).journal.take k)) hf' a0' es' a) ∨ _
       show _ ∨ (∃ hf' a0' es', Durable C (d.applyAll ((c.clear d s e).journal.take k)) hf' a0' es' (a.step (.clear s e)).1)
       rw [hjournal]
